@@ -239,9 +239,179 @@ def unit_rfc1751(prop, tier):
     return Unit('text.rfc1751.bounded', run, 'bounded')
 
 
+def unit_protected(prop, tier):
+    """C08: export under a passphrase, import with the SAME passphrase -> equal key; with a different one -> ValueError.
+    Passphrases of every accepted type (bytes, bytearray where accepted, ASCII text, text with non-ASCII characters)."""
+    from vf.core import Unit
+
+    def run():
+        from Crypto.PublicKey import RSA, ECC, DSA
+        t0 = time.time()
+        rsa, eccs = _keys()
+        dsa = DSA.construct((0x1ddfe1f0a4c0d6b4f4ce9cbd1fd5b0e0a4e6fcb7b2b0c3ce2d3a1f0e9d8c7b6a5 * 0 + 7, 23, 11, 2, 3)) if False else None
+        pws = [b'secret', b'\xff\x00\x80 bytes', 'ascii text', 'p\xe4ssw\xf6rd', '\xa3100', 'x']
+        prots = [None, 'PBKDF2WithHMAC-SHA1AndDES-EDE3-CBC', 'PBKDF2WithHMAC-SHA1AndAES128-CBC', 'PBKDF2WithHMAC-SHA256AndAES256-CBC',
+                 'PBKDF2WithHMAC-SHA512AndAES256-GCM', 'scryptAndAES128-CBC', 'scryptAndAES256-GCM']
+        if tier == 'quick':
+            prots = prots[:3] + prots[4:6]
+        cases = []      # (label, exporter(pw) -> blob, importer(blob, pw) -> key, original)
+        for fmt in ('PEM', 'DER'):
+            for pkcs in (1, 8):
+                for prot in prots:
+                    if pkcs == 1 and (prot is not None or fmt == 'DER'):
+                        continue
+                    if pkcs == 8 and prot is None and fmt == 'DER':
+                        continue
+                    kw = {'format': fmt, 'pkcs': pkcs}
+                    if prot:
+                        kw['protection'] = prot
+                        kw['prot_params'] = {'iteration_count': 21} if prot.startswith('PBKDF2') else {'iteration_count': 16, 'block_size': 1, 'parallelization': 1}
+                    cases.append(('RSA %s' % kw, (lambda pw, kw=kw: rsa.export_key(passphrase=pw, **kw)), RSA.import_key, rsa))
+        for k in eccs[:3]:
+            for fmt in ('PEM', 'DER'):
+                for use8 in (True, False):
+                    for prot in prots:
+                        if not use8 and (prot is not None or fmt == 'DER'):
+                            continue
+                        if use8 and prot is None:
+                            continue
+                        kw = {'format': fmt, 'use_pkcs8': use8}
+                        if prot:
+                            kw['protection'] = prot
+                            kw['prot_params'] = {'iteration_count': 21} if prot.startswith('PBKDF2') else {'iteration_count': 16, 'block_size': 1, 'parallelization': 1}
+                        cases.append(('ECC %s %s' % (k.curve, kw), (lambda pw, kw=kw, k=k: k.export_key(passphrase=pw, **kw)), ECC.import_key, k))
+        fail_same = fail_other = None
+        ev = 0
+        for label, exp, imp, orig in cases:
+            for pw in pws:
+                try:
+                    blob = exp(pw)
+                except ValueError:
+                    continue            # combination not offered by this key type (e.g. legacy PEM for EdDSA keys)
+                ev += 1
+                try:
+                    back = imp(blob, passphrase=pw)
+                    if back != orig and fail_same is None:
+                        fail_same = {'class': 'different-key', 'case': label, 'passphrase': repr(pw)}
+                except Exception as ex:      # noqa
+                    if fail_same is None:
+                        fail_same = {'class': 'same-passphrase-refused', 'case': label, 'passphrase': repr(pw), 'exception': repr(ex)[:200]}
+                other = pw + (b'x' if isinstance(pw, bytes) else 'x')
+                ev += 1
+                try:
+                    imp(blob, passphrase=other)
+                    if fail_other is None:
+                        fail_other = {'class': 'other-passphrase-accepted', 'case': label, 'passphrase': repr(pw), 'other': repr(other)}
+                except ValueError:
+                    pass
+                except Exception as ex:      # noqa
+                    if fail_other is None:
+                        fail_other = {'class': 'other-passphrase-' + type(ex).__name__, 'case': label, 'passphrase': repr(pw), 'other': repr(other),
+                                      'exception': repr(ex)[:200]}
+        return {'results': [_result(prop, 'import_key.protected.same_passphrase', 'import_key(export_key(k, fmt, passphrase=pw, protection), passphrase=pw) == k '
+                                    'for bytes and text passphrases (incl. non-ASCII text)', fail_same, ev),
+                            _result(prop, 'import_key.protected.other_passphrase', 'import_key(export_key(k, ..., passphrase=pw), passphrase=pw + "x") raises ValueError',
+                                    fail_other, ev)],
+                'bounded': [{'name': 'text.import_key.protected', 'bound': '%d key/format/protection combinations (RSA 256-bit, P-256, P-384, Ed25519; PEM legacy, PKCS#8 '
+                             'PEM/DER under %d PBES2 schemes, reduced iteration counts) x %d passphrases (bytes, ASCII text, non-ASCII text)' % (len(cases), len(prots) - 1, len(pws)),
+                             'evaluations': ev, 'distinct': ev, 'samples': [cases[0][0]]}],
+                'functions': [{'target': 'Crypto.PublicKey.RSA.RsaKey.export_key (protected)', 'engine': 'BOUNDED', 'status': 'bounded'},
+                              {'target': 'Crypto.PublicKey.ECC.EccKey.export_key (protected)', 'engine': 'BOUNDED', 'status': 'bounded'}],
+                'assumptions': ['protected export/import round trips go through PEM / PBES / KDFs / ciphers as a whole: bounded only'], 'seconds': time.time() - t0}
+    return Unit('text.import_key.protected.bounded', run, 'bounded')
+
+
+def _der(tag, body):
+    n = len(body)
+    if n < 128:
+        return bytes([tag, n]) + body
+    ln = n.to_bytes((n.bit_length() + 7) // 8, 'big')
+    return bytes([tag, 0x80 | len(ln)]) + ln + body
+
+
+def _der_oid(dotted):
+    arcs = [int(x) for x in dotted.split('.')]
+    body = bytes([arcs[0] * 40 + arcs[1]])
+    for a in arcs[2:]:
+        chunk = [a & 0x7F]
+        a >>= 7
+        while a:
+            chunk.append(0x80 | (a & 0x7F))
+            a >>= 7
+        body += bytes(reversed(chunk))
+    return _der(6, body)
+
+
+def _der_int(v):
+    return _der(2, v.to_bytes(v.bit_length() // 8 + 1, 'big'))
+
+
+def unit_pbes2_foreign(prop, tier):
+    """C13/C08: PBES2 containers written by an INDEPENDENT encoder (RFC 8018 A.2/A.4: PBKDF2-params = salt, iterationCount, keyLength OPTIONAL,
+    prf DEFAULT hmacWithSHA1) in all four optional-member combinations must be decoded to the wrapped key; the library's own encoder
+    never writes keyLength, so its round trips do not reach these shapes."""
+    from vf.core import Unit
+
+    def run():
+        import hashlib
+        from Crypto.Cipher import AES
+        from Crypto.IO import PKCS8
+        t0 = time.time()
+        inner = _der(0x30, _der_int(0) + _der(0x30, _der_oid('1.2.840.113549.1.1.1') + b'\x05\x00') + _der(4, b'private key bytes' * 3))
+        fail = None
+        ev = 0
+        pw = b'passw0rd'
+        for aes_oid, klen in (('2.16.840.1.101.3.4.1.2', 16), ('2.16.840.1.101.3.4.1.42', 32)):
+            for with_keylen in (False, True):
+                for prf in (None, ('1.2.840.113549.2.7', 'sha1'), ('1.2.840.113549.2.9', 'sha256'), ('1.2.840.113549.2.11', 'sha512')):
+                    for salt_len in (8, 16):
+                        salt = bytes(range(1, salt_len + 1))
+                        iv = bytes(range(16))
+                        count = 19
+                        key = hashlib.pbkdf2_hmac(prf[1] if prf else 'sha1', pw, salt, count, klen)
+                        pad = 16 - len(inner) % 16
+                        ct = AES.new(key, AES.MODE_CBC, iv).encrypt(inner + bytes([pad]) * pad)
+                        params = _der(4, salt) + _der_int(count)
+                        if with_keylen:
+                            params += _der_int(klen)
+                        if prf:
+                            params += _der(0x30, _der_oid(prf[0]) + b'\x05\x00')
+                        kdf = _der(0x30, _der_oid('1.2.840.113549.1.5.12') + _der(0x30, params))
+                        enc = _der(0x30, _der_oid(aes_oid) + _der(4, iv))
+                        alg = _der(0x30, _der_oid('1.2.840.113549.1.5.13') + _der(0x30, kdf + enc))
+                        blob = _der(0x30, alg + _der(4, ct))
+                        ev += 1
+                        label = {'cipher_oid': aes_oid, 'keyLength_present': with_keylen, 'prf': prf[1] if prf else 'absent (default hmacWithSHA1)', 'salt_len': salt_len}
+                        try:
+                            got = PKCS8.unwrap(blob, pw)
+                            if (got[0] != '1.2.840.113549.1.1.1' or bytes(got[1]) != b'private key bytes' * 3) and fail is None:
+                                fail = dict(label, **{'class': 'wrong-content', 'got': repr(got)[:200], 'blob': blob.hex()})
+                        except Exception as ex:      # noqa
+                            if fail is None:
+                                fail = dict(label, **{'class': 'valid-container-refused', 'exception': repr(ex)[:200], 'blob': blob.hex()})
+                        ev += 1
+                        try:
+                            PKCS8.unwrap(blob, pw + b'x')
+                            if fail is None:
+                                fail = dict(label, **{'class': 'other-passphrase-accepted', 'blob': blob.hex()})
+                        except ValueError:
+                            pass
+                        except Exception as ex:      # noqa
+                            if fail is None:
+                                fail = dict(label, **{'class': 'other-passphrase-' + type(ex).__name__, 'exception': repr(ex)[:200], 'blob': blob.hex()})
+        return {'results': [_result(prop, 'pkcs8.pbes2.foreign_containers', 'PKCS8.unwrap decodes every RFC 8018 PBES2 container shape (keyLength present/absent x prf '
+                                    'absent/hmacWithSHA1/SHA256/SHA512) written by an independent encoder to the wrapped key, and refuses another passphrase with ValueError',
+                                    fail, ev)],
+                'bounded': [{'name': 'text.pkcs8.pbes2.foreign', 'bound': '2 AES-CBC schemes x keyLength present/absent x 4 prf choices x 2 salt lengths; PBKDF2 by hashlib, DER by a '
+                             '20-line writer in the harness', 'evaluations': ev, 'distinct': ev, 'samples': []}],
+                'functions': [{'target': 'Crypto.IO._PBES.PBES2.decrypt (foreign containers)', 'engine': 'BOUNDED', 'status': 'bounded'}],
+                'assumptions': ['PBES2.decrypt on containers not produced by the library: bounded only'], 'seconds': time.time() - t0}
+    return Unit('text.pkcs8.pbes2.foreign.bounded', run, 'bounded')
+
+
 def units(prop, tier):
     if prop == 'C13':
-        return [unit_pem(prop, tier), unit_import(prop, tier), unit_rfc1751(prop, tier)]
+        return [unit_pem(prop, tier), unit_import(prop, tier), unit_rfc1751(prop, tier), unit_pbes2_foreign(prop, tier)]
     if prop == 'C08':
-        return [unit_pem(prop, tier), unit_import(prop, tier)]
+        return [unit_pem(prop, tier), unit_import(prop, tier), unit_protected(prop, tier), unit_pbes2_foreign(prop, tier)]
     return []
